@@ -158,6 +158,9 @@ pub fn preempt(site: &'static str) {
     }
 }
 
+/// Payload prefix of panics that scenarios raise on purpose.
+pub const SCRIPTED_PANIC: &str = "SCRIPTED_PANIC";
+
 pub fn panic_msg(p: &Box<dyn Any + Send>) -> String {
     if let Some(s) = p.downcast_ref::<&'static str>() {
         s.to_string()
@@ -459,7 +462,15 @@ impl Sim {
             Ok(Poll::Pending) => (false, None),
             Err(p) => (true, Some(panic_msg(p))),
         };
-        if let Some(msg) = panicked {
+        // a panic the scenario asked for (a handler that panics, contained by the executor as
+        // tokio's task harness would contain it) is an event, not a finding
+        let scripted = panicked.as_deref().map(|m| m.starts_with(SCRIPTED_PANIC)).unwrap_or(false);
+        if scripted {
+            LAST_PANIC_LOC.with(|l| l.borrow_mut().take());
+            self.count("fault.handler_panic_contained");
+            self.log(EvKind::Note { what: "scripted_panic", a: id as i64, b: 0 });
+        }
+        if let Some(msg) = panicked.filter(|_| !scripted) {
             let loc = LAST_PANIC_LOC.with(|l| l.borrow_mut().take()).unwrap_or_default();
             let msg = format!("{msg} @ {loc}");
             self.panics.borrow_mut().push((id, msg.clone()));
